@@ -319,7 +319,7 @@ def handleC07 (j : Json) : Except String Verdict := do
   let dflt := fIntD j "dflt" 0
   -- precondition: well-formed operands
   let okT := match j.getObjVal? "t" with
-    | .ok tj => (match parseTree (d + 1) tj with | .ok t => wfB (d + 1) t | _ => false)
+    | .ok tj => tj.isNull || (match parseTree (d + 1) tj with | .ok t => wfB (d + 1) t | _ => false)
     | _ => true
   let okTs := match fArr j "ts" with
     | .ok l => l.all (fun tj => match parseTree (d + 1) tj with | .ok t => wfB (d + 1) t | _ => false)
